@@ -1000,7 +1000,8 @@ def run(ctx):
                         ops=list(d.ops), renamed=getattr(d, 'renamed', None) if variant == 'pre' else None)
             case['py'] = run_python_sims(case)
             if 'fast_obj' in case:                # keep the flags, not the generated program (memory)
-                case['src_flags'] = fast_elision_from_source(case)
+                if len(block.logic) <= MAX_COQ_NETS:          # only compared for Coq-evaluated cases
+                    case['src_flags'] = fast_elision_from_source(case)
                 del case['fast_obj'], case['fast_src']
             cases.append(case)
     pyrtl.reset_working_block()
